@@ -605,4 +605,103 @@ func TestC07(t *testing.T) {
 	}
 	r.Cells(total, done)
 	r.Exhaustive("cells", !r.Replaying())
+
+	// "carries the id and properties that were written", for all of them at once: the value with every property of the Go type set,
+	// under every name of that type, through every position; compared property by property with what was written
+	if r.WantLayer("everything", true) {
+		nest := func(name string, base codec, wrap func(x ap.Item) ap.Item, unwrap func(outer ap.Item) ap.Item) codec {
+			return codec{name, func(x ap.Item) ([]byte, error) { return base.encode(wrap(x)) },
+				func(x ap.Item, b []byte) (ap.Item, error) {
+					outer, err := base.decode(nil, b)
+					if err != nil || ap.IsNil(outer) {
+						return nil, fmt.Errorf("outer value: %v (%T)", err, outer)
+					}
+					return unwrap(outer), nil
+				}, base.form}
+		}
+		inAttachment := func(x ap.Item) ap.Item {
+			return &ap.Object{ID: "https://example.com/outer", Type: ap.NoteType, Attachment: x}
+		}
+		outAttachment := func(o ap.Item) ap.Item {
+			if ob, ok := o.(*ap.Object); ok {
+				return ob.Attachment
+			}
+			return nil
+		}
+		inTag := func(x ap.Item) ap.Item {
+			return &ap.Object{ID: "https://example.com/outer", Type: ap.NoteType, Tag: ap.ItemCollection{ap.IRI("https://example.com/first"), x}}
+		}
+		outTag := func(o ap.Item) ap.Item {
+			if ob, ok := o.(*ap.Object); ok && len(ob.Tag) == 2 {
+				return ob.Tag[1]
+			}
+			return nil
+		}
+		inActivity := func(x ap.Item) ap.Item {
+			return &ap.Activity{ID: "https://example.com/outer", Type: ap.CreateType, Actor: ap.IRI("https://example.com/actors/outer"), Object: x}
+		}
+		outActivity := func(o ap.Item) ap.Item {
+			if a, ok := o.(*ap.Activity); ok {
+				return a.Object
+			}
+			return nil
+		}
+		inItems := func(x ap.Item) ap.Item {
+			return &ap.OrderedCollection{ID: "https://example.com/outer", Type: ap.OrderedCollectionType, TotalItems: 2, OrderedItems: ap.ItemCollection{x, ap.IRI("https://example.com/last")}}
+		}
+		outItems := func(o ap.Item) ap.Item {
+			if c, ok := o.(*ap.OrderedCollection); ok && len(c.OrderedItems) == 2 {
+				return c.OrderedItems[0]
+			}
+			return nil
+		}
+		all := []codec{
+			nest("json-top", codecJSONPkg, func(x ap.Item) ap.Item { return x }, func(o ap.Item) ap.Item { return o }),
+			nest("json-item", codecJSONPkg, inAttachment, outAttachment),
+			nest("json-list", codecJSONPkg, inTag, outTag),
+			nest("json-activity-object", codecJSONPkg, inActivity, outActivity),
+			nest("json-collection-items", codecJSONPkg, inItems, outItems),
+			nest("gob-top", codecGobPkg, func(x ap.Item) ap.Item { return x }, func(o ap.Item) ap.Item { return o }),
+			nest("gob-nested", codecGobPkg, inAttachment, outAttachment),
+			nest("gob-list", codecGobPkg, inTag, outTag),
+			nest("gob-activity-object", codecGobPkg, inActivity, outActivity),
+			nest("gob-collection-items", codecGobPkg, inItems, outItems),
+		}
+		atotal, adone := 0, 0
+		for _, hooks := range []string{"unset", "set"} {
+			for _, nc := range names {
+				if !nc.known {
+					continue
+				}
+				for ci, c := range all {
+					for n := 0; n < 3; n++ {
+						if n > 0 && hooks == "set" && (ci+n)%3 != 0 {
+							continue
+						}
+						atotal++
+						cell := fmt.Sprintf("%s %s-all#%d hooks=%s", nc.name, c.name, n, hooks)
+						if !r.WantCell(cell) {
+							continue
+						}
+						adone++
+						x := vocab.EverythingN(vocab.StructType(nc.ti.GoType), c.form == vocab.GobForm, n)
+						sv, _ := vocab.StructOf(x)
+						sv.FieldByName("Type").SetString(nc.name)
+						if hooks == "set" {
+							install()
+						}
+						ds, _ := roundTrip(c, x, "type "+nc.name+" "+c.name+"-all "+hooks, nc.ti.GoType+".*")
+						restore()
+						r.Case(cell, true, "everything entry="+c.name)
+						if adone%97 == 0 {
+							r.Sample(cell, map[string]interface{}{"name": nc.name, "entry": c.name, "hooks": hooks, "differences": len(ds)})
+						}
+						reportAll(r, "everything", cell, ds, map[string]interface{}{"cell": cell, "value": vocab.Dump(x)})
+					}
+				}
+			}
+		}
+		r.Cells(atotal, adone)
+		r.Exhaustive("everything", !r.Replaying())
+	}
 }
